@@ -91,9 +91,17 @@ def T():
     return _T
 
 
+# attribute name -> element name of the 2020a schema, written down independently of the writer under test (the schema's
+# state type: snake_case becomes camelCase; the three irregular names are the schema's own)
+XSD_STATE_NAME = {"time_step": "time", "delta_y_f": "deltaYFront", "delta_y_r": "deltaYRear",
+                  "curvature_rate": "curvatureChange"}
+
+
 def camel(attr):
-    from commonroad.common.writer.file_writer_xml import StateXMLNode
-    return StateXMLNode._map_to_xml_prop(attr)
+    if attr in XSD_STATE_NAME:
+        return XSD_STATE_NAME[attr]
+    head, *rest = attr.split("_")
+    return head + "".join(w[:1].upper() + w[1:] for w in rest)
 
 
 class Gen:
@@ -339,6 +347,12 @@ class Gen:
             if r.random() < 0.35:
                 sr = {r.choice(sorted(u.traffic_signs))} if u.traffic_signs and r.random() < 0.6 else None
                 lr = {r.choice(sorted(u.traffic_lights))} if u.traffic_lights and r.random() < 0.6 else None
+                # a stop line may refer to a sign / light of the network that its own lanelet does not list (the sign
+                # is mounted at the neighbouring lanelet): any id of the network is a valid reference
+                if signs and r.random() < 0.4:
+                    sr = (sr or set()) | {r.choice(signs).traffic_sign_id}
+                if lights and r.random() < 0.4:
+                    lr = (lr or set()) | {r.choice(lights).traffic_light_id}
                 u.stop_line = StopLine(u.left_vertices[-1].copy(), u.right_vertices[-1].copy(),
                                        self.enum_in(LineMarking, "lineMarking"), sr, lr)
         if n_seg >= 2 and r.random() < 0.7:
